@@ -42,10 +42,8 @@ for pid, name, f, old, new in MUTS:
     s = open(p).read()
     if old is None:
         import re
-        m = re.search(r"EGLPNUM_TYPENAME_ILLlib_chgobj \((?:.|\n)*?if \(indx < 0 \|\| indx >= lp->nstruct\)", s)
-        if not m:
-            res.append((pid, name, "MUTATION-DOES-NOT-APPLY")); print(res[-1], flush=True); continue
-        old = m.group(0); new = old.replace("indx >= lp->nstruct", "indx >= lp->ncols")
+        old = "		QSlog(\"EGLPNUM_TYPENAME_ILLlib_chgobj called without an lp\");\n		rval = 1;\n		ILL_CLEANUP;\n	}\n\n	if (indx < 0 || indx >= lp->O->nstruct)"
+        new = old.replace("indx >= lp->O->nstruct", "indx >= lp->O->ncols")
     if s.count(old) != 1:
         res.append((pid, name, "MUTATION-DOES-NOT-APPLY (%d matches)" % s.count(old)))
         print(res[-1], flush=True)
